@@ -39,7 +39,7 @@ Fixpoint in_use_trace (st : state) (ops : list op) : list nat :=
   | o :: r => let st1 := fst (step st o) in in_use st1 :: in_use_trace st1 r
   end.
 
-Definition observe (n : nat) (ops : list op) : list (list nat) * list (list nat) * list (list nat) * nat * list nat :=
-  let '(st, ev) := run (init n) ops in
+Definition observe (n : nat) (c0 : bool) (ops : list op) : list (list nat) * list (list nat) * list (list nat) * nat * list nat :=
+  let '(st, ev) := run (init n c0) ops in
   (map ev_code ev, map conn_code (conns st), map client_code (clients st),
-   match monitor [] ev with Some _ => 1 | None => 0 end, in_use_trace (init n) ops).
+   match monitor c0 [] ev with Some _ => 1 | None => 0 end, in_use_trace (init n c0) ops).
